@@ -76,6 +76,9 @@ func newSut(cfg M) (*sut, bool) {
 	gas := &txcachemocks.TxGasHandlerMock{MinimumGasMove: minGasLimit, MinimumGasPrice: minGasPrice, GasProcessingDivisor: 100}
 	c, err := txcache.NewTxCache(conf, gas)
 	s := &sut{c: c, byHash: map[string]txKey{}, seen: map[txKey]bool{}}
+	// the grace period is a pair of constants of the code: part of the logged configuration
+	lo, hi := txcache.VerifGracePeriod()
+	cfg["glo"], cfg["ghi"] = int(lo), int(hi)
 	return s, err == nil
 }
 
